@@ -12,6 +12,7 @@ from mc.engine import Res, digest, viol
 from mc.model import Schema
 
 ID = "C15"
+CHUNK = 100
 RULE = ("states = (multiset of <=N respondents with numeric answers in {missing,1,2,-1}, plain-"
         "subtotal config on rows / columns / both); non-trivial = the table has a non-zero total "
         "and a subtotal (or, without subtotals, two non-zero cells); distinct = distinct share "
